@@ -182,6 +182,102 @@ def iterReset (it : Iter) : Iter :=
 /-- `opus_extension_iterator_set_frame_max` (extensions.c:149-152). -/
 def iterSetFrameMax (it : Iter) (frameMax : Int) : Iter := { it with frameMax := frameMax }
 
+/-- Outcome of one pass through the body of `while (iter->src_len > 0)`:
+    `cont` = `continue` (next iteration), `ret` = `return` from `next`. -/
+inductive RFlow where
+  | cont (it : Iter)
+  | ret (it : Iter) (s : Step)
+
+/-- Body of `while (iter->src_len > 0)` inside the repeat block
+    (extensions.c:168-205); entered with `src_len > 0`. -/
+def repeatBody (it : Iter) : Res RFlow :=
+  match it.data[it.srcData]? with                                 -- repeat_id_byte = *iter->src_data  :170
+  | none => .oob
+  | some rb =>
+    match skipExtension it.data it.srcData it.srcLen with
+    | .ok none => .abort                                          -- celt_assert(iter->src_len >= 0)  :174
+    | .ok (some (sp, sl, _)) =>
+      let it1 := { it with srcData := sp, srcLen := sl }
+      if rb ≤ 3 then .ok (.cont it1)                              -- `continue` :176
+      else
+        let rb' := if it.repeatL = 0 ∧ it.repeatFrame + 1 ≥ it.nbFrames ∧ some sp = it.lastLong
+                   then rb - rb % 2 else rb                       -- repeat_id_byte &= ~1  :183
+        match skipPayload it.data it.currData it.currLen rb' it.tsl with
+        | .ok none => .ok (.ret { it1 with currLen := -1 } .invalid)
+        | .ok (some (cp, cl, hs)) =>
+          let it2 := { it1 with currData := cp, currLen := cl }
+          if (cp : Int) ≠ it.len - cl then .abort                 -- celt_assert :192
+          else if it.frameMax ≤ it.repeatFrame then .ok (.cont it2)   -- `continue` :197
+          else .ok (.ret it2 (.ext { id := rb' / 2, frame := it.repeatFrame,
+                                     off := it.currData + hs,
+                                     len := (cp : Int) - it.currData - hs }))
+        | .err e => .err e
+        | .oob => .oob
+        | .abort => .abort
+    | .err e => .err e
+    | .oob => .oob
+    | .abort => .abort
+
+/-- One pass through the body consumes source bytes and never gives back packet bytes. -/
+theorem repeatBody_cont {it it1 : Iter} (h : repeatBody it = .ok (.cont it1)) (hs : 0 < it.srcLen) :
+    it1.nbFrames = it.nbFrames ∧ it1.repeatFrame = it.repeatFrame ∧
+    it1.srcLen.toNat < it.srcLen.toNat ∧ it1.currLen.toNat ≤ it.currLen.toNat := by
+  unfold repeatBody at h
+  split at h
+  · simp at h
+  · split at h
+    · simp at h
+    · rename_i hsk
+      have h1 := skipExtension_spec hsk
+      simp only at h
+      split at h
+      · simp only [Res.ok.injEq, RFlow.cont.injEq] at h; subst h; simp; omega
+      · split at h
+        · simp at h
+        · rename_i hsp
+          have h2 := skipPayload_spec hsp
+          split at h
+          · simp at h
+          · split at h
+            · simp only [Res.ok.injEq, RFlow.cont.injEq] at h; subst h; simp; omega
+            · simp at h
+        all_goals simp at h
+    all_goals simp at h
+
+theorem repeatBody_ret {it it1 : Iter} {s : Step} (h : repeatBody it = .ok (.ret it1 s)) (hs : 0 < it.srcLen) :
+    it1.nbFrames = it.nbFrames ∧ it1.repeatFrame = it.repeatFrame ∧
+    it1.srcLen.toNat < it.srcLen.toNat ∧ it1.currLen.toNat ≤ it.currLen.toNat := by
+  unfold repeatBody at h
+  split at h
+  · simp at h
+  · split at h
+    · simp at h
+    · rename_i hsk
+      have h1 := skipExtension_spec hsk
+      simp only at h
+      split at h
+      · simp at h
+      · split at h
+        · simp only [Res.ok.injEq, RFlow.ret.injEq] at h; obtain ⟨rfl, _⟩ := h; simp; omega
+        · rename_i hsp
+          have h2 := skipPayload_spec hsp
+          split at h
+          · simp at h
+          · split at h
+            · simp at h
+            · simp only [Res.ok.injEq, RFlow.ret.injEq] at h; obtain ⟨rfl, _⟩ := h; simp; omega
+        all_goals simp at h
+    all_goals simp at h
+
+/-- "We finished repeating extensions" (extensions.c:211-223). -/
+def repeatEnd (it : Iter) : Iter :=
+  let it1 := { it with repeatData := it.currData, lastLong := none }
+  let it2 := if it.repeatL = 0 then
+      let cf := it.currFrame + 1
+      { it1 with currFrame := cf, currLen := if cf ≥ it.nbFrames then 0 else it1.currLen }
+    else it1
+  { it2 with repeatFrame := 0 }
+
 /-- The "we are in the process of repeating some extensions" block of
     `opus_extension_iterator_next` (extensions.c:164-224), entered with
     `repeat_frame > 0`.  `some step` = the function returned from inside the block,
@@ -189,62 +285,125 @@ def iterSetFrameMax (it : Iter) (frameMax : Int) : Iter := { it with frameMax :=
 def repeatPhase (it : Iter) : Res (Iter × Option Step) :=
   if it.repeatFrame < it.nbFrames then
     if 0 < it.srcLen then
-      match it.data[it.srcData]? with
-      | none => .oob
-      | some rb =>
-        match hsk : skipExtension it.data it.srcData it.srcLen with
-        | .ok none => .abort                                   -- celt_assert(iter->src_len >= 0)  :174
-        | .ok (some (sp, sl, _)) =>
-          let it1 := { it with srcData := sp, srcLen := sl }
-          if rb ≤ 3 then repeatPhase it1
-          else
-            let rb' := if it.repeatL = 0 ∧ it.repeatFrame + 1 ≥ it.nbFrames ∧ some sp = it.lastLong
-                       then rb - rb % 2 else rb
-            match skipPayload it.data it.currData it.currLen rb' it.tsl with
-            | .ok none => .ok ({ it1 with currLen := -1 }, some .invalid)
-            | .ok (some (cp, cl, hs)) =>
-              let it2 := { it1 with currData := cp, currLen := cl }
-              if (cp : Int) ≠ it.len - cl then .abort          -- celt_assert :192
-              else if it.frameMax ≤ it.repeatFrame then repeatPhase it2
-              else .ok (it2, some (.ext { id := rb' / 2, frame := it.repeatFrame,
-                                          off := it.currData + hs,
-                                          len := (cp : Int) - it.currData - hs }))
-            | .err e => .err e
-            | .oob => .oob
-            | .abort => .abort
-        | .err e => .err e
-        | .oob => .oob
-        | .abort => .abort
+      match h : repeatBody it with
+      | .ok (.cont it1) => repeatPhase it1
+      | .ok (.ret it1 s) => .ok (it1, some s)
+      | .err e => .err e
+      | .oob => .oob
+      | .abort => .abort
     else
+      -- "We finished repeating the extensions for this frame."  :207-209
       repeatPhase { it with srcData := it.repeatData, srcLen := it.repeatLen,
                             repeatFrame := it.repeatFrame + 1 }
-  else
-    let it1 := { it with repeatData := it.currData, lastLong := none }
-    let it2 := if it.repeatL = 0 then
-        let cf := it.currFrame + 1
-        { it1 with currFrame := cf, currLen := if cf ≥ it.nbFrames then 0 else it1.currLen }
-      else it1
-    .ok ({ it2 with repeatFrame := 0 }, none)
+  else .ok (repeatEnd it, none)
 termination_by (it.nbFrames - it.repeatFrame, it.srcLen.toNat)
 decreasing_by
-  all_goals simp_wf
-  · have := skipExtension_spec hsk
-    right; omega
-  · have := skipExtension_spec hsk
-    right; omega
-  · left; omega
+  · simp_wf
+    have := repeatBody_cont h (by assumption)
+    rw [this.1, this.2.1]; right; exact this.2.2.1
+  · simp_wf; left; omega
+
+theorem repeatEnd_currLen_le (it : Iter) : (repeatEnd it).currLen.toNat ≤ it.currLen.toNat := by
+  unfold repeatEnd
+  simp only
+  split
+  · split <;> simp
+  · simp
 
 theorem repeatPhase_currLen_le (it : Iter) : ∀ (it' : Iter) (s : Option Step),
     repeatPhase it = .ok (it', s) → it'.currLen.toNat ≤ it.currLen.toNat := by
-  fun_induction repeatPhase it <;> intro it' s h
-  all_goals (try (simp at h; done))
-  all_goals (try (rename_i ih; have hih := ih _ _ h))
-  all_goals (try have hsp := skipPayload_spec ‹skipPayload _ _ _ _ _ = Res.ok (some _)›)
-  all_goals (try (simp only [Res.ok.injEq, Prod.mk.injEq] at h; obtain ⟨rfl, _⟩ := h))
-  all_goals (try (simp +zetaDelta at *))
-  all_goals (try omega)
-  all_goals (repeat' split)
-  all_goals (simp; try omega)
+  fun_induction repeatPhase it with
+  | case1 it hrf hsl it1 hb ih =>
+    intro it' s h; have := ih _ _ h; have := repeatBody_cont hb hsl; omega
+  | case2 it hrf hsl it1 s1 hb =>
+    intro it' s h
+    simp only [Res.ok.injEq, Prod.mk.injEq] at h; obtain ⟨rfl, _⟩ := h
+    exact (repeatBody_ret hb hsl).2.2.2
+  | case3 => intro _ _ h; simp at h
+  | case4 => intro _ _ h; simp at h
+  | case5 => intro _ _ h; simp at h
+  | case6 it hrf hsl ih => intro it' s h; exact ih _ _ h
+  | case7 it hrf =>
+    intro it' s h
+    simp only [Res.ok.injEq, Prod.mk.injEq] at h; obtain ⟨rfl, _⟩ := h
+    exact repeatEnd_currLen_le it
+
+/-- Outcome of one pass through the body of `while (iter->curr_len > 0)`:
+    `cont` = next iteration, `ret` = `return`, `rep` = the recursive call of line 271 with
+    `repeat_frame = curr_frame+1 > 0`. -/
+inductive MFlow where
+  | cont (it : Iter)
+  | ret (it : Iter) (s : Step)
+  | rep (it : Iter)
+
+/-- Body of the main `while (iter->curr_len > 0)` loop (extensions.c:231-291);
+    entered with `curr_len > 0`. -/
+def mainBody (it : Iter) : Res MFlow :=
+  match it.data[it.currData]? with
+  | none => .oob
+  | some b0 =>
+    let id := b0 / 2
+    let l := b0 % 2
+    match skipExtension it.data it.currData it.currLen with
+    | .ok none => .ok (.ret { it with currLen := -1 } .invalid)
+    | .ok (some (cp, cl, hs)) =>
+      let it1 := { it with currData := cp, currLen := cl }
+      if (cp : Int) ≠ it.len - cl then .abort                  -- celt_assert :242
+      else if id = 1 then
+        if l = 1 ∧ it.data[it.currData + 1]? = none then .oob   -- curr_data0[1]
+        else
+          let inc := if l = 0 then 1 else (it.data[it.currData + 1]?).getD 0
+          if inc = 0 then .ok (.cont it1)                       -- `continue` :249
+          else
+            let cf := it.currFrame + inc
+            if it.nbFrames ≤ cf then .ok (.ret { it1 with currFrame := cf, currLen := -1 } .invalid)
+            else .ok (.cont { it1 with currFrame := cf,
+                                       currLen := if it.frameMax ≤ cf then 0 else cl,
+                                       repeatData := cp, lastLong := none, tsl := 0 })
+      else if id = 2 then
+        .ok (.rep { it1 with repeatL := l, repeatFrame := it.currFrame + 1,
+                             repeatLen := (it.currData : Int) - it.repeatData,
+                             srcData := it.repeatData,
+                             srcLen := (it.currData : Int) - it.repeatData })
+      else if 2 < id then
+        let it2 := if 32 ≤ id then { it1 with lastLong := some cp, tsl := 0 }
+                   else { it1 with tsl := it.tsl + l }
+        .ok (.ret it2 (.ext { id := id, frame := it.currFrame, off := it.currData + hs,
+                              len := (cp : Int) - it.currData - hs }))
+      else .ok (.cont it1)
+    | .err e => .err e
+    | .oob => .oob
+    | .abort => .abort
+
+/-- Every pass through the main body that does not fail consumes at least one packet byte. -/
+theorem mainBody_dec {it : Iter} (hl : 0 < it.currLen) :
+    (∀ it1, mainBody it = .ok (.cont it1) → it1.currLen.toNat < it.currLen.toNat) ∧
+    (∀ it1, mainBody it = .ok (.rep it1) → it1.currLen.toNat < it.currLen.toNat) ∧
+    (∀ it1 e, mainBody it = .ok (.ret it1 (.ext e)) → it1.currLen.toNat < it.currLen.toNat) := by
+  unfold mainBody
+  split
+  · simp
+  · split
+    · simp
+    · rename_i hsk
+      have h1 := skipExtension_spec hsk
+      have h2 := h1.2.1 hl
+      simp only
+      refine ⟨?_, ?_, ?_⟩
+      · intro it1 h
+        repeat' (split at h)
+        all_goals (simp only [Res.ok.injEq, MFlow.cont.injEq, reduceCtorEq] at h)
+        all_goals (subst h; simp only; try split)
+        all_goals omega
+      · intro it1 h
+        repeat' (split at h)
+        all_goals (simp only [Res.ok.injEq, MFlow.rep.injEq, reduceCtorEq] at h)
+        all_goals (subst h; simp only; omega)
+      · intro it1 e h
+        repeat' (split at h)
+        all_goals (simp only [Res.ok.injEq, MFlow.ret.injEq, reduceCtorEq, and_false] at h)
+        all_goals (obtain ⟨rfl, _⟩ := h; simp only; omega)
+    all_goals simp
 
 /-- The main `while (iter->curr_len > 0)` loop of `opus_extension_iterator_next`
     (extensions.c:230-293).  The recursive call at line 271 (`id == 2`) is unfolded:
@@ -252,58 +411,27 @@ theorem repeatPhase_currLen_le (it : Iter) : ∀ (it' : Iter) (s : Option Step),
     (`repeat_frame = curr_frame+1 > 0`), then re-tests `frame_max` (line 227). -/
 def mainLoop (it : Iter) : Res (Iter × Step) :=
   if 0 < it.currLen then
-    match it.data[it.currData]? with
-    | none => .oob
-    | some b0 =>
-      let id := b0 / 2
-      let l := b0 % 2
-      match hsk : skipExtension it.data it.currData it.currLen with
-      | .ok none => .ok ({ it with currLen := -1 }, .invalid)
-      | .ok (some (cp, cl, hs)) =>
-        let it1 := { it with currData := cp, currLen := cl }
-        if (cp : Int) ≠ it.len - cl then .abort                  -- celt_assert :242
-        else if id = 1 then
-          if l = 1 ∧ it.data[it.currData + 1]? = none then .oob   -- curr_data0[1]
-          else
-            let inc := if l = 0 then 1 else (it.data[it.currData + 1]?).getD 0
-            if inc = 0 then mainLoop it1                          -- `continue` :249
-            else
-              let cf := it.currFrame + inc
-              if it.nbFrames ≤ cf then .ok ({ it1 with currFrame := cf, currLen := -1 }, .invalid)
-              else mainLoop { it1 with currFrame := cf,
-                                       currLen := if it.frameMax ≤ cf then 0 else cl,
-                                       repeatData := cp, lastLong := none, tsl := 0 }
-        else if id = 2 then
-          let it2 := { it1 with repeatL := l, repeatFrame := it.currFrame + 1,
-                                repeatLen := (it.currData : Int) - it.repeatData,
-                                srcData := it.repeatData,
-                                srcLen := (it.currData : Int) - it.repeatData }
-          match hrp : repeatPhase it2 with
-          | .ok (it3, some s) => .ok (it3, s)
-          | .ok (it3, none) =>
-            if it3.frameMax ≤ it3.currFrame then .ok (it3, .done) else mainLoop it3
-          | .err e => .err e
-          | .oob => .oob
-          | .abort => .abort
-        else if 2 < id then
-          let it2 := if 32 ≤ id then { it1 with lastLong := some cp, tsl := 0 }
-                     else { it1 with tsl := it.tsl + l }
-          .ok (it2, .ext { id := id, frame := it.currFrame, off := it.currData + hs,
-                           len := (cp : Int) - it.currData - hs })
-        else mainLoop it1
+    match h : mainBody it with
+    | .ok (.cont it1) => mainLoop it1
+    | .ok (.ret it1 s) => .ok (it1, s)
+    | .ok (.rep it2) =>
+      match hrp : repeatPhase it2 with
+      | .ok (it3, some s) => .ok (it3, s)
+      | .ok (it3, none) =>
+        if it3.frameMax ≤ it3.currFrame then .ok (it3, .done) else mainLoop it3
       | .err e => .err e
       | .oob => .oob
       | .abort => .abort
+    | .err e => .err e
+    | .oob => .oob
+    | .abort => .abort
   else .ok (it, .done)
 termination_by it.currLen.toNat
 decreasing_by
-  all_goals simp_wf
-  all_goals have h1 := skipExtension_spec hsk
-  · omega
-  · split <;> omega
-  · have h2 := repeatPhase_currLen_le _ _ _ hrp
-    simp [it2, it1] at h2; omega
-  · omega
+  · exact (mainBody_dec (by assumption)).1 _ h
+  · have h1 := (mainBody_dec (by assumption)).2.1 _ h
+    have h2 := repeatPhase_currLen_le _ _ _ hrp
+    omega
 
 /-- `opus_extension_iterator_next` (extensions.c:158-294). -/
 def next (it : Iter) : Res (Iter × Step) :=
@@ -330,27 +458,48 @@ theorem repeatPhase_ext (it : Iter) : ∀ (it' : Iter) (e : ExtRef),
     it'.currLen.toNat ≤ it.currLen.toNat ∧ it'.nbFrames = it.nbFrames ∧
     it.repeatFrame ≤ it'.repeatFrame ∧ it'.repeatFrame < it'.nbFrames ∧
     (it.repeatFrame < it'.repeatFrame ∨ it'.srcLen.toNat < it.srcLen.toNat) := by
-  fun_induction repeatPhase it <;> intro it' s h
-  all_goals (try (simp at h; done))
-  all_goals (try (rename_i ih; have hih := ih _ _ h))
-  all_goals (try have hsp := skipPayload_spec ‹skipPayload _ _ _ _ _ = Res.ok (some _)›)
-  all_goals (try have hse := skipExtension_spec ‹skipExtension _ _ _ = Res.ok (some _)›)
-  all_goals (try (simp only [Res.ok.injEq, Prod.mk.injEq] at h; obtain ⟨rfl, _⟩ := h))
-  all_goals (try (simp +zetaDelta at *))
-  all_goals (try omega)
+  fun_induction repeatPhase it with
+  | case1 it hrf hsl it1 hb ih =>
+    intro it' s h; have := ih _ _ h; have := repeatBody_cont hb hsl; omega
+  | case2 it hrf hsl it1 s1 hb =>
+    intro it' s h
+    simp only [Res.ok.injEq, Prod.mk.injEq] at h; obtain ⟨rfl, _⟩ := h
+    have := repeatBody_ret hb hsl; omega
+  | case3 => intro _ _ h; simp at h
+  | case4 => intro _ _ h; simp at h
+  | case5 => intro _ _ h; simp at h
+  | case6 it hrf hsl ih => intro it' s h; have := ih _ _ h; simp at this; omega
+  | case7 it hrf => intro it' s h; simp at h
 
 theorem mainLoop_ext (it : Iter) : ∀ (it' : Iter) (e : ExtRef),
     mainLoop it = .ok (it', .ext e) → it'.currLen.toNat < it.currLen.toNat := by
-  fun_induction mainLoop it <;> intro it' s h
-  all_goals (try (simp at h; done))
-  all_goals (try (rename_i ih; have hih := ih _ _ h))
-  all_goals (try have hse := skipExtension_spec ‹skipExtension _ _ _ = Res.ok (some _)›)
-  all_goals (try have hrp := repeatPhase_currLen_le _ _ _ ‹repeatPhase _ = _›)
-  all_goals (try (simp only [Res.ok.injEq, Prod.mk.injEq] at h; obtain ⟨rfl, _⟩ := h))
-  all_goals (try (simp +zetaDelta at *))
-  all_goals (try omega)
-  all_goals (repeat' split)
-  all_goals (simp; try omega)
+  fun_induction mainLoop it with
+  | case1 it hl it1 hb ih =>
+    intro it' e h; have := ih _ _ h; have := (mainBody_dec hl).1 _ hb; omega
+  | case2 it hl it1 s hb =>
+    intro it' e h
+    simp only [Res.ok.injEq, Prod.mk.injEq] at h; obtain ⟨rfl, rfl⟩ := h
+    exact (mainBody_dec hl).2.2 _ _ hb
+  | case3 it hl it2 hb it3 s hrp =>
+    intro it' e h
+    simp only [Res.ok.injEq, Prod.mk.injEq] at h; obtain ⟨rfl, rfl⟩ := h
+    have h1 := (mainBody_dec hl).2.1 _ hb
+    have h2 := repeatPhase_currLen_le _ _ _ hrp
+    omega
+  | case4 it hl it2 hb it3 hrp hfm => intro it' e h; simp at h
+  | case5 it hl it2 hb it3 hrp hfm ih =>
+    intro it' e h
+    have := ih _ _ h
+    have h1 := (mainBody_dec hl).2.1 _ hb
+    have h2 := repeatPhase_currLen_le _ _ _ hrp
+    omega
+  | case6 => intro _ _ h; simp at h
+  | case7 => intro _ _ h; simp at h
+  | case8 => intro _ _ h; simp at h
+  | case9 => intro _ _ h; simp at h
+  | case10 => intro _ _ h; simp at h
+  | case11 => intro _ _ h; simp at h
+  | case12 => intro _ _ h; simp at h
 
 theorem next_decreases {it it' : Iter} {e : ExtRef} (h : next it = .ok (it', .ext e)) :
     Prod.Lex (· < ·) (Prod.Lex (· < ·) (· < ·)) it'.mu it.mu := by
@@ -531,15 +680,64 @@ structure Ext where
 def ExtRef.toExt (d : Bytes) (e : ExtRef) : Ext :=
   { id := e.id, frame := e.frame, data := (d.drop e.off).take e.len.toNat, len := e.len }
 
-/-- Constant inputs of one `opus_packet_extensions_generate` call.  `dry` = `data == NULL`. -/
-structure GCfg where
-  len : Int
-  dry : Bool
-  exts : Array Ext
-  nbFrames : Nat
+/-! The generator is modelled in two layers.  `genOps` walks the C control flow of
+    `opus_packet_extensions_generate` and emits, in program order, the buffer actions the C code
+    performs (`Op`): every `if (len-pos < k) return OPUS_BUFFER_TOO_SMALL` as `need k`, every
+    `if (data) data[pos] = b; pos++` as `put b`, every payload copy as `copy`.  Nothing else in the
+    function depends on `len`, `pos` or the bytes written, so the action sequence is a function of
+    the extension list and `nb_frames` only.  `runOps` executes the actions against a buffer of
+    `len` bytes (`data == NULL`: dry run).  A return other than BUFFER_TOO_SMALL (`BAD_ARG`, a failed
+    assertion, a read outside the caller's arrays) ends the action sequence (`W.res`). -/
 
-/-- Mutable locals of `opus_packet_extensions_generate` other than the output
-    (`pos` is the size of the output array, which is threaded separately). -/
+/-- One buffer action of the generator. -/
+inductive Op where
+  | need (k : Int)                 -- `if (len-pos < k) return OPUS_BUFFER_TOO_SMALL;`
+  | put (b : Nat)                  -- `if (data) data[pos] = b;  pos++;`
+  | copy (src : Bytes) (n : Nat)   -- `if (data) OPUS_COPY(&data[pos], src, n);  pos += n;`
+  deriving Repr, DecidableEq
+
+/-- Buffer actions emitted so far, and the value (or early return) of the computation. -/
+structure W (α : Type) where
+  ops : List Op
+  res : Res α
+
+def W.bind {α β : Type} (x : W α) (f : α → W β) : W β :=
+  match x.res with
+  | .ok a => let y := f a; { ops := x.ops ++ y.ops, res := y.res }
+  | .err e => { ops := x.ops, res := .err e }
+  | .oob => { ops := x.ops, res := .oob }
+  | .abort => { ops := x.ops, res := .abort }
+
+instance : Monad W where
+  pure a := { ops := [], res := .ok a }
+  bind := W.bind
+
+/-- Emit buffer actions. -/
+def W.emit (l : List Op) : W Unit := { ops := l, res := .ok () }
+/-- A step that touches no buffer (array read, argument check, assertion). -/
+def W.lift {α : Type} (r : Res α) : W α := { ops := [], res := r }
+
+/-- Execute one action at `pos = out.size` in a buffer of `len` bytes (`dry`: `data == NULL`;
+    zeros stand in for the bytes that a dry run does not write, so that `pos = out.size` in both modes). -/
+def runOp (dry : Bool) (len : Int) (out : Array Nat) : Op → Res (Array Nat)
+  | .need k => if len - out.size < k then .err .bufferTooSmall else .ok out
+  | .put b => .ok (out.push (if dry then 0 else b))
+  | .copy src n =>
+    if dry then .ok (out ++ Array.replicate n 0)
+    else if src.length < n then .oob          -- the caller's `ext->data` holds fewer than `n` bytes
+    else .ok (out ++ (src.take n).toArray)
+
+/-- Execute a sequence of actions. -/
+def runOps (dry : Bool) (len : Int) : List Op → Array Nat → Res (Array Nat)
+  | [], out => .ok out
+  | op :: ops, out =>
+    match runOp dry len out op with
+    | .ok out' => runOps dry len ops out'
+    | .err e => .err e
+    | .oob => .oob
+    | .abort => .abort
+
+/-- Mutable locals of `opus_packet_extensions_generate` other than `pos`. -/
 structure GSt where
   written : Nat
   currFrame : Nat
@@ -557,46 +755,30 @@ def rdE (a : Array Ext) (i : Nat) : Res Ext :=
   | some v => .ok v
   | none => .oob
 
-/-- Bytes copied by `OPUS_COPY(&data[pos], ext->data, ext->len)`; a dry run copies nothing
-    (zeros stand in so that `pos` is the output size in both modes). -/
-def payloadBytes (c : GCfg) (e : Ext) : Res Bytes :=
-  if c.dry then .ok (List.replicate e.len.toNat 0)
-  else if (e.data.length : Int) < e.len then .oob
-  else .ok (e.data.take e.len.toNat)
-
-/-- `write_extension_payload` (extensions.c:408-444); `pos = out.size`. -/
-def writeExtPayload (c : GCfg) (out : Array Nat) (e : Ext) (last : Bool) : Res (Array Nat) :=
-  if ¬ (3 ≤ e.id ∧ e.id ≤ 127) then .abort
+/-- `write_extension_payload` (extensions.c:408-444). -/
+def wPayload (e : Ext) (last : Bool) : W Unit :=
+  if ¬ (3 ≤ e.id ∧ e.id ≤ 127) then W.lift .abort                 -- celt_assert :410
   else if e.id < 32 then
-    if e.len < 0 ∨ e.len > 1 then .err .badArg
-    else if e.len > 0 then
-      if c.len - out.size < e.len then .err .bufferTooSmall
-      else if c.dry then .ok (out.push 0)
-      else match e.data[0]? with
-        | none => .oob
-        | some b => .ok (out.push b)
-    else .ok out
+    if e.len < 0 ∨ e.len > 1 then W.lift (.err .badArg)
+    else if e.len > 0 then W.emit [.need e.len, .copy e.data 1]     -- data[pos] = ext->data[0]
+    else pure ()
   else
-    if e.len < 0 then .err .badArg
+    if e.len < 0 then W.lift (.err .badArg)
     else
       let lengthBytes : Int := if last then 0 else 1 + e.len / 255
-      if c.len - out.size < lengthBytes + e.len then .err .bufferTooSmall
-      else
-        let out1 := if last then out
-                    else (out ++ Array.replicate (e.len / 255).toNat 255).push (e.len % 255).toNat
-        match payloadBytes c e with
-        | .ok bs => .ok (out1 ++ bs.toArray)
-        | .err er => .err er
-        | .oob => .oob
-        | .abort => .abort
+      W.emit ([.need (lengthBytes + e.len)]
+        ++ (if last then []
+            else List.replicate (e.len / 255).toNat (.put 255) ++ [.put (e.len % 255).toNat])
+        ++ [.copy e.data e.len.toNat])
 
 /-- `write_extension` (extensions.c:446-454). -/
-def writeExt (c : GCfg) (out : Array Nat) (e : Ext) (last : Bool) : Res (Array Nat) :=
-  if c.len - out.size < 1 then .err .bufferTooSmall
-  else if ¬ (3 ≤ e.id ∧ e.id ≤ 127) then .abort
+def wExt (e : Ext) (last : Bool) : W Unit := do
+  W.emit [.need 1]
+  if ¬ (3 ≤ e.id ∧ e.id ≤ 127) then W.lift .abort                  -- celt_assert :450
   else
     let b : Int := e.id * 2 + (if e.id < 32 then e.len else if last then 0 else 1)
-    writeExtPayload c (out.push (b % 256).toNat) e last
+    W.emit [.put (b % 256).toNat]
+    wPayload e last
 
 /-- First loop nest of the generator (extensions.c:475-484): validation and
     `frame_min_idx` / `frame_max_idx`. -/
@@ -659,7 +841,8 @@ def advanceRep (exts : Array Ext) (mx : List Nat) (nbF : Nat) (g : Nat) (rep : L
 termination_by nbF - g
 
 /-- Result of the repeat detection for one frame: `frame_repeat_idx`, `repeat_count`,
-    `last_long_idx` (`none` = -1). -/
+    `last_long_idx` (`none` = -1).  (`trailing_short_len` is computed by the C code, :489-527, but
+    never read.) -/
 structure Det where
   rep : List Nat
   repeatCount : Nat
@@ -699,108 +882,76 @@ def detectLoop (exts : Array Ext) (mx : List Nat) (nbF f : Nat) (i hi : Nat) (s 
   else .ok s
 termination_by hi - i
 
-/-- Repeated payloads of frame `g` (extensions.c:598-607). -/
-def repeatsOfFrame (c : GCfg) (g : Nat) (last : Bool) (lastLong : Option Nat) (j hi : Nat)
-    (out : Array Nat) (written : Nat) : Res (Array Nat × Nat) :=
-  if j < hi then
-    match rdE c.exts j with
-    | .ok x =>
-      if x.frame = g then
-        match writeExtPayload c out x (last && lastLong == some j) with
-        | .ok out' => repeatsOfFrame c g last lastLong (j + 1) hi out' (written + 1)
-        | .err er => .err er
-        | .oob => .oob
-        | .abort => .abort
-      else repeatsOfFrame c g last lastLong (j + 1) hi out written
-    | .err er => .err er
-    | .oob => .oob
-    | .abort => .abort
-  else .ok (out, written)
+/-- Repeated payloads of frame `g` (extensions.c:598-607); returns `written`. -/
+def wRepeatsOfFrame (exts : Array Ext) (g : Nat) (last : Bool) (lastLong : Option Nat) (j hi : Nat)
+    (written : Nat) : W Nat :=
+  if j < hi then do
+    let x ← W.lift (rdE exts j)
+    if x.frame = g then do
+      wPayload x (last && lastLong == some j)
+      wRepeatsOfFrame exts g last lastLong (j + 1) hi (written + 1)
+    else wRepeatsOfFrame exts g last lastLong (j + 1) hi written
+  else pure written
 termination_by hi - j
 
 /-- `for (g=f+1; g<nb_frames; g++)` of the repeat emission (extensions.c:595-609). -/
-def repeatsLoop (c : GCfg) (last : Bool) (lastLong : Option Nat) (g : Nat)
-    (out : Array Nat) (s : GSt) : Res (Array Nat × GSt) :=
-  if g < c.nbFrames then
-    match rdN s.minIdx g, rdN s.repIdx g with
-    | .ok lo, .ok hi =>
-      match repeatsOfFrame c g last lastLong lo hi out s.written with
-      | .ok (out', w') =>
-        repeatsLoop c last lastLong (g + 1) out'
-          { s with written := w', minIdx := s.minIdx.set g (max lo hi) }
-      | .err er => .err er
-      | .oob => .oob
-      | .abort => .abort
-    | _, _ => .oob
-  else .ok (out, s)
-termination_by c.nbFrames - g
+def wRepeatsLoop (exts : Array Ext) (nbF : Nat) (last : Bool) (lastLong : Option Nat) (g : Nat)
+    (s : GSt) : W GSt :=
+  if g < nbF then do
+    let lo ← W.lift (rdN s.minIdx g)
+    let hi ← W.lift (rdN s.repIdx g)
+    let w' ← wRepeatsOfFrame exts g last lastLong lo hi s.written
+    wRepeatsLoop exts nbF last lastLong (g + 1) { s with written := w', minIdx := s.minIdx.set g (max lo hi) }
+  else pure s
+termination_by nbF - g
 
 /-- "Insert separator when needed" (extensions.c:561-576). -/
-def writeSep (c : GCfg) (out : Array Nat) (f currFrame : Nat) : Res (Array Nat) :=
+def wSep (f currFrame : Nat) : W Unit :=
   if f ≠ currFrame then
     let diff : Int := (f : Int) - currFrame
-    if c.len - out.size < 2 then .err .bufferTooSmall
-    else if diff = 1 then .ok (out.push 2)
-    else .ok ((out.push 3).push (diff % 256).toNat)
-  else .ok out
+    if diff = 1 then W.emit [.need 2, .put 2]
+    else W.emit [.need 2, .put 3, .put (diff % 256).toNat]
+  else pure ()
 
 /-- Emission loop for frame `f` (extensions.c:557-613). -/
-def writeFrameLoop (c : GCfg) (f : Nat) (det : Det) (i hi : Nat) (out : Array Nat) (s : GSt) :
-    Res (Array Nat × GSt) :=
-  if i < hi then
-    match rdE c.exts i with
-    | .ok e =>
-      if e.frame = f then
-        match writeSep c out f s.currFrame with
-        | .ok out1 =>
-          match writeExt c out1 e ((s.written : Int) = (c.exts.size : Int) - 1) with
-          | .ok out2 =>
-            let s1 := { s with written := s.written + 1, currFrame := f }
-            if 0 < det.repeatCount ∧ s.repIdx[f]? = some i then
-              let nbRepeated := det.repeatCount * (c.nbFrames - (f + 1))
-              let last : Bool := s1.written + nbRepeated = c.exts.size ∨ (det.lastLong = none ∧ hi ≤ i + 1)
-              if c.len - out2.size < 1 then .err .bufferTooSmall
-              else
-                match repeatsLoop c last det.lastLong (f + 1) (out2.push (if last then 4 else 5)) s1 with
-                | .ok (out3, s3) =>
-                  writeFrameLoop c f det (i + 1) hi out3
-                    { s3 with currFrame := if last then s3.currFrame + 1 else s3.currFrame }
-                | .err er => .err er
-                | .oob => .oob
-                | .abort => .abort
-            else writeFrameLoop c f det (i + 1) hi out2 s1
-          | .err er => .err er
-          | .oob => .oob
-          | .abort => .abort
-        | .err er => .err er
-        | .oob => .oob
-        | .abort => .abort
-      else writeFrameLoop c f det (i + 1) hi out s
-    | .err er => .err er
-    | .oob => .oob
-    | .abort => .abort
-  else .ok (out, s)
+def wFrameLoop (exts : Array Ext) (nbF : Nat) (f : Nat) (det : Det) (i hi : Nat) (s : GSt) : W GSt :=
+  if i < hi then do
+    let e ← W.lift (rdE exts i)
+    if e.frame = f then do
+      wSep f s.currFrame
+      wExt e ((s.written : Int) = (exts.size : Int) - 1)
+      let s1 := { s with written := s.written + 1, currFrame := f }
+      if 0 < det.repeatCount ∧ s.repIdx[f]? = some i then do
+        let nbRepeated := det.repeatCount * (nbF - (f + 1))
+        let last : Bool := s1.written + nbRepeated = exts.size ∨ (det.lastLong = none ∧ hi ≤ i + 1)
+        W.emit [.need 1, .put (if last then 4 else 5)]               -- the repeat indicator
+        let s3 ← wRepeatsLoop exts nbF last det.lastLong (f + 1) s1
+        wFrameLoop exts nbF f det (i + 1) hi
+          { s3 with currFrame := if last then s3.currFrame + 1 else s3.currFrame }
+      else wFrameLoop exts nbF f det (i + 1) hi s1
+    else wFrameLoop exts nbF f det (i + 1) hi s
+  else pure s
 termination_by hi - i
 
 /-- The `for (f=0;f<nb_frames;f++)` loop (extensions.c:486-614). -/
-def framesLoop (c : GCfg) (mx : List Nat) (f : Nat) (out : Array Nat) (s : GSt) : Res (Array Nat × GSt) :=
-  if f < c.nbFrames then
-    match rdN s.minIdx f, rdN mx f with
-    | .ok lo, .ok hi =>
-      let det0 : Det := { rep := s.repIdx, repeatCount := 0, lastLong := none }
-      match (if f + 1 < c.nbFrames then detectLoop c.exts mx c.nbFrames f lo hi det0 else .ok det0) with
-      | .ok det =>
-        match writeFrameLoop c f det lo hi out { s with repIdx := det.rep } with
-        | .ok (out', s') => framesLoop c mx (f + 1) out' s'
-        | .err er => .err er
-        | .oob => .oob
-        | .abort => .abort
-      | .err er => .err er
-      | .oob => .oob
-      | .abort => .abort
-    | _, _ => .oob
-  else .ok (out, s)
-termination_by c.nbFrames - f
+def wFramesLoop (exts : Array Ext) (nbF : Nat) (mx : List Nat) (f : Nat) (s : GSt) : W GSt :=
+  if f < nbF then do
+    let lo ← W.lift (rdN s.minIdx f)
+    let hi ← W.lift (rdN mx f)
+    let det0 : Det := { rep := s.repIdx, repeatCount := 0, lastLong := none }
+    let det ← W.lift (if f + 1 < nbF then detectLoop exts mx nbF f lo hi det0 else .ok det0)
+    let s' ← wFrameLoop exts nbF f det lo hi { s with repIdx := det.rep }
+    wFramesLoop exts nbF mx (f + 1) s'
+  else pure s
+termination_by nbF - f
+
+/-- The buffer actions of `opus_packet_extensions_generate` up to the final padding step
+    (extensions.c:470-615), for `0 ≤ nb_frames ≤ 48`. -/
+def genOps (exts : Array Ext) (nbF : Nat) : W Unit := do
+  let (mn, mx) ← W.lift (scanLoop exts nbF 0 (List.replicate nbF exts.size) (List.replicate nbF 0))
+  let s ← wFramesLoop exts nbF mx 0 { written := 0, currFrame := 0, minIdx := mn, repIdx := mn }
+  if s.written ≠ exts.size then W.lift .abort                    -- celt_assert(written == nb_extensions)
+  else pure ()
 
 /-- `opus_packet_extensions_generate` (extensions.c:456-630).  Returns the bytes
     `data[0..ret)`; for a dry run (`data == NULL`) only their number is meaningful. -/
@@ -808,15 +959,13 @@ def generate (dry : Bool) (len : Int) (exts : Array Ext) (nbFrames : Int) (pad :
   if len < 0 then .abort                                     -- celt_assert(len >= 0)
   else if 48 < nbFrames then .err .badArg
   else
-    let nbF := nbFrames.toNat
-    match scanLoop exts nbFrames 0 (List.replicate nbF exts.size) (List.replicate nbF 0) with
-    | .ok (mn, mx) =>
-      let c : GCfg := { len, dry, exts, nbFrames := nbF }
-      match framesLoop c mx 0 #[] { written := 0, currFrame := 0, minIdx := mn, repIdx := mn } with
-      | .ok (out, s) =>
-        if s.written ≠ exts.size then .abort                 -- celt_assert(written == nb_extensions)
-        else if pad ∧ (out.size : Int) < len then
-          .ok (Array.replicate (len - out.size).toNat 1 ++ out)
+    let w := genOps exts nbFrames.toNat
+    match runOps dry len w.ops #[] with
+    | .ok out =>
+      match w.res with
+      | .ok _ =>
+        if pad ∧ (out.size : Int) < len then
+          .ok (Array.replicate (len - out.size).toNat (if dry then 0 else 1) ++ out)
         else .ok out
       | .err er => .err er
       | .oob => .oob
